@@ -31,6 +31,8 @@ MSGS = {
     "offX1": [("X", 1)], "offX2": [("X", 2)], "offXinf": [("X", INF)], "stopX": [("X", 0)],
     "offY1": [("Y", 1)], "stopY": [("Y", 0)], "offX2+offY1": [("X", 2), ("Y", 1)],
     "offX2+offX1+offX2": [("X", 2), ("X", 1), ("X", 2)], "offX1+stopX+offX1": [("X", 1), ("X", 0), ("X", 1)],
+    # the last entry for a key decides: offer then stop, stop then offer, long then short TTL
+    "offX1+stopX": [("X", 1), ("X", 0)], "stopX+offX1": [("X", 0), ("X", 1)], "offX2+offX1": [("X", 2), ("X", 1)],
 }
 
 
@@ -271,7 +273,8 @@ def configs(ctx):
     out.append(("S1-X-deep", dict(sid=sid, advs=full, menu=s1x, controls=("L2", "connlost"),
                                   deviations=ctx.pick(1, 2), fine=ctx.pick(1, 2)), CLOSURE))
     # the same alphabet with a source whose session counter is far advanced when it reboots (0xFFF0 -> 1)
-    rep = [("S1", n, "n", mc) for n in ("offX2+offX1+offX2", "offX1+stopX+offX1", "offX1", "stopX")]
+    rep = [("S1", n, "n", mc) for n in ("offX2+offX1+offX2", "offX1+stopX+offX1", "offX1", "stopX", "offX1+stopX", "stopX+offX1",
+                                        "offX2+offX1")]
     out.append(("S1-X-repeated-entries", dict(sid=sid, advs=base, menu=rep, controls=(), deviations=0, fine=1), CLOSURE))
     out.append(("S1-X-high-session", dict(sid=sid, advs=base, menu=s1x, controls=(), deviations=0, fine=1,
                                           session_base=0xFFF0 - ctx.seed % 0x7000), CLOSURE))
